@@ -35,12 +35,15 @@ def gen(rng, n, tier):
             axes = [(a if a[0] != "static" or all(a[1][j][1] == a[1][j + 1][0] for j in range(len(a[1]) - 1)) else C.gen_axisd(rng, "fixed", adaptive=False, maxbins=4)) for a in axes]
         h = C13.gen_dh(rng, axes, dtype=rng.choice(["int64", "int32", "float64", "float32"]))
         deriv = rng.choice(DERIV_1D if nd == 1 else DERIV_2D if nd == 2 else DERIV_ND)
+        nanm = "T" if rng.random() < 0.12 else "F"
+        if nanm == "T" and nd == 1 and rng.random() < 0.6: deriv = rng.choice(["copy", "copy", "mul", "slice_full"])
         other = "none"
         if adaptive and deriv in ("add", "sub") and rng.random() < 0.7:      # a right operand over another range of the same grid
             ax2 = [C.gen_axisd(rng, "fixed", w=a[1], shift=a[2], adaptive=True, maxbins=4) for a in axes]
             other = C13.gen_dh(rng, ax2, dtype=sx.rec(h)["dtype"]); od = sx.rec(other); od["missed"] = [0] * len(od["missed"]); other = [[k, v] for k, v in od.items()]
         yield [["bucket", "%dd/%s/%s" % (nd, "adaptive" if adaptive else "fixed", deriv)], ["kind", "hist"], ["hist", h], ["deriv", deriv], ["other", other],
-               ["mut", rng.choice(MUT)], ["target", rng.choice(["parent", "child"])], ["seed", rng.randint(0, 10 ** 6)]]
+               ["mut", rng.choice(MUT)], ["target", rng.choice(["parent", "child"])], ["seed", rng.randint(0, 10 ** 6)],
+               ["nan_missed", nanm]]
 
 def _snap(h):
     import numpy as np
@@ -142,6 +145,8 @@ def impl(case):
             if "other" in d and d["other"] != "none": b = C.mk_ah(d["other"])
             else: b = C.mk_ah(d["hist"])
             if rng.random() < 0.5: b.name = "src"; b.meta_data["custom"] = "x"      # operands with identical metadata
+            if d.get("nan_missed", "F") == "T" and a.ndim == 1:      # an unknown underflow (as after a fill into a gap), also on integer contents
+                a.underflow = np.nan
             a0, b0 = _snap(a), _snap(b)
             try:
                 r = _derive(a, b, d["deriv"], rng)
@@ -154,7 +159,7 @@ def impl(case):
             ok = sx.enc(_snap(a)) == sx.enc(a0) and sx.enc(_snap(b)) == sx.enc(b0) and _wf(b)
             if d["deriv"] in ("add", "sub") and rng.random() < 0.5: parent = b      # the later mutation may also go through the right operand
             if d["deriv"] == "copy":
-                ok = ok and bool(r == a) and type(r) is type(a) and C.dtype_name(r.dtype) == C.dtype_name(a.dtype) and _snap(r) == _snap(a)
+                ok = ok and bool(r == a) and type(r) is type(a) and C.dtype_name(r.dtype) == C.dtype_name(a.dtype) and sx.enc(_snap(r)) == sx.enc(_snap(a))
             if d["deriv"] == "copy_nofreq":
                 ok = ok and (float(np.asarray(r.frequencies).sum()) == 0.0 and float(np.asarray(r.errors2).sum()) == 0.0 and
                       C.snap_bins(r) == C.snap_bins(a) and type(r) is type(a))
